@@ -62,7 +62,7 @@ package document
 // For each of the three formats a Default entry for the extension of the media part exists afterwards
 // (fmtExt(format) == "." + ctExt(format)); entries that existed stay where they were, at most one is appended.
 //@ func (*Document).addImageContentType
-//@ props C10
+//@ props C10, C01
 //@ requires d != nil
 //@ ensures d.contentTypes != nil && (old(d.contentTypes) != nil ==> d.contentTypes == old(d.contentTypes))
 //@ ensures knownFmt(format) ==> ctHasDefault(d.contentTypes.Defaults, ctExt(format))
@@ -123,7 +123,7 @@ package document
 
 // AddImageFromDataWithoutElement: the allocator shared by the body, table-cell and template paths.
 //@ func (*Document).AddImageFromDataWithoutElement
-//@ props C10, C02, C04
+//@ props C10, C02, C04, C01
 //@ requires docParts(d) && mediaFresh(d)
 //@ ensures err == nil && fresh(result0) && docParts(d)
 //@ ensures d.nextImageID == old(d.nextImageID) + 1
